@@ -44,9 +44,6 @@ def angEnv (p : String) (s : State F) : String → F :=
   setS (setS s.fenv (p ++ "ang") (if angAxis ex ey vx vy = true then s.fenv (p ++ "ang") else angAcute ex ey vx vy))
     (p ++ "ret0") (angF ex ey vx vy)
 
-theorem setS_self' {α} (env : String → α) (v : String) : setS env v (env v) = env := by
-  funext w; simp only [setS]; split <;> simp_all
-
 theorem angBody_exec (p : String) (s : State F) (fuel : Nat) (hs : s.ctl = .run) :
     exec fuel (angBody p) s = { s with fenv := angEnv p s, ctl := .ret } := by
   obtain ⟨ie, fe, be, ia, fa, shp, ext, ctl⟩ := s
